@@ -17,7 +17,7 @@ RULE = (
     "selector value, i.e. every payload-less union arm), all command codes x directions x configurations (sessions, "
     "encrypted parameters, failed responses) and the captured corpus; per input: decoder object vs events_to_obj (fed with a list, an iterator and the live decoder), "
     "obj_to_events of both vs the decoded events (length, path, declared type identity, value, value class), re-encoded "
-    "bytes, Canonical from bytes (lazy and eager; events first, object first, each read twice) and from the object; distinct = distinct (type/code, configuration, arms, event count) cases"
+    "bytes, Canonical from bytes (lazy and eager; events first, object first, each read twice) and from the object; streams (some ending after a command): events_to_objs, the objects turned back into events and re-encoded; distinct = distinct (type/code, configuration, arms, event count) cases"
 )
 ASSUMPTIONS = ["equality is the library's own == on the dataclass objects and on MarshalEvent"]
 
@@ -33,6 +33,8 @@ def plan(tier, seed):
         shards.append(dict(name=f"msg{i}", kind="msg", ccs=ccs[i::n], n_configs=4 if q else 12))
     for i in range(2 if q else 6):
         shards.append(dict(name=f"corpus{i}", kind="corpus", start=i, step=(2 if q else 6) * (10 if q else 1)))
+    for i in range(2 if q else 6):
+        shards.append(dict(name=f"stream{i}", kind="stream", n=12 if q else 120, max_pairs=4))
     return shards
 
 
@@ -171,6 +173,43 @@ def check(case, rec):
     rec.sample(dict(case=case.short(), events=len(events)), cap=3)
 
 
+def check_stream(case, rec):
+    """A stream has no object of its own: events_to_objs is its events -> objects conversion.  Turning the objects back into
+    events must reproduce the decoded event list (every message, also a last command without response), and re-encoding
+    them the input."""
+    from tpmstream.common.object import events_to_objs, obj_to_events
+    from tpmstream.io.binary import Binary
+
+    t = TR.run("CommandResponseStream", case.d, strict=True)
+    if t.outcome[0] != "ok":
+        rec.count(f"stream_not_decodable_{t.okind()}")
+        return
+    rec.case(("stream", case.sig), nontrivial=True)
+    rec.count("streams_converted")
+    events = [e.raw for e in t.events]
+    roots = [i for i, e in enumerate(t.events) if e.kind == "M" and len(e.path) == 1]
+    if len(roots) % 2 == 1:
+        rec.count("streams_ending_after_a_command")
+    try:
+        objs = list(events_to_objs(events))
+        back = []
+        for o in objs:
+            back.extend(obj_to_events(o))
+    except Exception as e:
+        rec.violation("stream-objects", "raises:" + TR.mechanism(e), f"{case.short()}\nevents -> objects -> events raised {type(e).__name__}: {e}", case.replay(stream=True))
+        return
+    if len(objs) != len(roots):
+        rec.violation("stream-objects", "count", f"{case.short()}\n{len(objs)} objects for the {len(roots)} messages of the stream", case.replay(stream=True))
+        return
+    d = ev_diff(back, events)
+    if d:
+        rec.violation("stream-objects", "events-differ", f"{case.short()}\nobjects turned back into events differ from the decoded events at #{d[0]}: {d[1]}", case.replay(stream=True))
+        return
+    re_enc = b"".join(Binary.unmarshal(back))
+    if re_enc != case.d:
+        rec.violation("stream-objects", "re-encode", f"{case.short()}\nre-encoding the objects gives {len(re_enc)} bytes, the input has {len(case.d)}", case.replay(stream=True))
+
+
 def first_obj_diff(a, b, path="", verbose=False):
     """Where two dataclass objects start to differ: returns a short mechanism (or a sentence when verbose)."""
     import dataclasses
@@ -240,6 +279,10 @@ def check_across_threads(case, rec):
 
 def run_shard(shard, rec):
     rng = random.Random(f"{shard.get('seed', 0)}:C11:{shard['name']}")
+    if shard.get("kind") == "stream":
+        for base in _strict.base_cases(shard, rng):
+            check_stream(base, rec)
+        return
     for base in _strict.base_cases(shard, rng, hostile=rec):
         check(base, rec)
         if base.t in ("Command", "Response") and (base.enc or (base.t == "Command" and b"\x80\x02" == base.d[:2])):
@@ -252,13 +295,16 @@ def run_shard(shard, rec):
 
 def finish(m, tier):
     inc = []
-    for k in ("canonical_from_bytes", "canonical_from_object", "empty_structured_tpm2b_cases", "encrypted_responses", "union_events", "cross_thread_round_trips"):
+    for k in ("canonical_from_bytes", "canonical_from_object", "empty_structured_tpm2b_cases", "encrypted_responses", "union_events", "cross_thread_round_trips", "streams_converted", "streams_ending_after_a_command"):
         if not m["counters"].get(k):
             inc.append(f"no {k}")
     return dict(inconclusive=inc)
 
 
 def replay(r, rec):
+    if r.get("stream"):
+        check_stream(cases.Case.from_replay(r), rec)
+        return
     if r.get("threads"):
         check_across_threads(cases.Case.from_replay(r), rec)
     else:
